@@ -11,7 +11,7 @@
 (* "unspec" (no verdict, no position): an annotation that does not directly follow a  *)
 (* scalar value, a comma or an opening bracket on the same line, a second annotation  *)
 (* on a line, comments or annotations inside rule objects, exponents, exotic bare     *)
-(* rule names, `#` + line end, a block comment opened by more than three #, and       *)
+(* rule names, a block comment opened by more than three #, and       *)
 (* non-plain UTF-8 in strings.                                                        *)
 (*                                                                                     *)
 (* A state is [st, sk, ap, v]:  st control state;  sk stack of frames <<kind, ret>>   *)
@@ -264,7 +264,7 @@ SStep(s, c) ==
                            [] Nl(c)   -> RS(Ret(Top(sk)), Pop(sk), FALSE)
                            [] c = 123 -> IF MaxRDepth = 0 THEN RDeep ELSE RS("roFirst", Append(sk, F("RO")), FALSE)
                            [] OTHER   -> RS("iaText", sk, FALSE))
-    [] st = "iaHash1" -> IF c = 35 \/ Nl(c) THEN RUnspec ELSE RS("iaText", sk, FALSE)   \* a comment after the rules: plain `# ...` only
+    [] st = "iaHash1" -> IF c = 35 THEN RUnspec ELSE IF Nl(c) THEN RS(Ret(Top(sk)), Pop(sk), FALSE) ELSE RS("iaText", sk, FALSE)   \* a comment after the rules: plain `# ...` only
     [] st = "iaText"  -> IF Nl(c) THEN RS(Ret(Top(sk)), Pop(sk), FALSE) ELSE RS(st, sk, FALSE)
     [] st = "maStart" -> (CASE Sp(c) \/ Nl(c) -> RS(st, sk, FALSE)
                            [] c = 123 -> IF MaxRDepth = 0 THEN RDeep ELSE RS("roFirst", Append(sk, F("RO")), FALSE)
@@ -277,7 +277,7 @@ SStep(s, c) ==
     [] st = "maEnd1"  -> IF c = 47 THEN RS(Ret(Top(sk)), Pop(sk), FALSE) ELSE RDead
     \* ---- user comments
     [] st = "hash1"  -> (CASE c = 35 -> RS("hash2", sk, FALSE)
-                          [] Nl(c)  -> RUnspec
+                          [] Nl(c)  -> RS(Ret(Top(sk)), Pop(sk), FALSE)                 \* an empty comment
                           [] OTHER  -> RS("lc", Append(Pop(sk), <<"LC", Ret(Top(sk))>>), FALSE))
     [] st = "hash2"  -> IF c = 35 THEN RS("bc0", Append(Pop(sk), <<"BC", Ret(Top(sk))>>), FALSE) ELSE RDead
     [] st = "lc"     -> IF Nl(c) THEN RS(Ret(Top(sk)), Pop(sk), FALSE) ELSE RS(st, sk, FALSE)
